@@ -3,6 +3,7 @@ package interp
 import (
 	"fmt"
 	"go/constant"
+	"go/token"
 	"log"
 	"math"
 	"path/filepath"
@@ -35,6 +36,40 @@ var constOp = map[action]func(*node){
 	aBitNot: bitNotConst,
 	aNeg:    negConst,
 	aPos:    posConst,
+}
+
+// constCmp maps comparison actions to the token of go/constant. A comparison of two constants
+// is a (boolean) constant: const big = 1<<3 == 8.
+var constCmp = map[action]token.Token{
+	aEqual:        token.EQL,
+	aNotEqual:     token.NEQ,
+	aLower:        token.LSS,
+	aLowerEqual:   token.LEQ,
+	aGreater:      token.GTR,
+	aGreaterEqual: token.GEQ,
+}
+
+// compareConst folds the comparison of two untyped constant operands.
+func compareConst(n *node) {
+	tok, ok := constCmp[n.action]
+	if !ok {
+		return
+	}
+	v0, v1 := n.child[0].rval, n.child[1].rval
+	if !isConstantValue(v0.Type()) || !isConstantValue(v1.Type()) {
+		return
+	}
+	c0, c1 := vConstantValue(v0), vConstantValue(v1)
+	if c0.Kind() == constant.Unknown || c1.Kind() == constant.Unknown {
+		return
+	}
+	if (c0.Kind() == constant.String) != (c1.Kind() == constant.String) || (c0.Kind() == constant.Bool) != (c1.Kind() == constant.Bool) {
+		return
+	}
+	if (c0.Kind() == constant.Bool || c0.Kind() == constant.Complex || c1.Kind() == constant.Complex) && tok != token.EQL && tok != token.NEQ {
+		return
+	}
+	n.rval = reflect.ValueOf(constant.Compare(c0, tok, c1))
 }
 
 var constBltn = map[string]func(*node){
@@ -955,6 +990,9 @@ func (interp *Interpreter) cfg(root *node, sc *scope, importPath, pkgName string
 			if c0.rval.IsValid() && c1.rval.IsValid() && (!isInterface(n.typ)) && constOp[n.action] != nil {
 				n.typ.TypeOf()       // Force compute of reflection type.
 				constOp[n.action](n) // Compute a constant result now rather than during exec.
+			}
+			if c0.rval.IsValid() && c1.rval.IsValid() {
+				compareConst(n) // A comparison of constants is a constant.
 			}
 			switch {
 			case n.rval.IsValid():
